@@ -28,6 +28,7 @@ TAGKEY = {
     "mplexrate": "getdata/mplex-multirate",
     "rawpad": "getdata/raw-bof-pad-native-type",
 }
+K_CACHENEG = "getdata/mplex-cache-seeded-before-sample-zero"
 TAGPRIO = ["alloczero", "mplexseek", "unaligned", "mplexrate", "rawpad"]
 
 
@@ -622,7 +623,7 @@ def judge(chk, cases, stats, exe=None):
                         chk.violation(key, "gd_getdata(%s, first_sample=%d, n=%d) = %d %s, but read as [%d,+%d) and [%d,+%d) it is %d %s: a sample depends on where the window starts\n%s" % (
                             qw[0], qw[2], qw[3], W["count"], W["vals"][:10], qa[2], qa[3], qb[2], qb[3], exp_count, exp_vals[:10], c.format_text()),
                             replay_of(c, qw, W, {"err": False, "count": exp_count, "vals": exp_vals}, {"count": exp_count, "vals": exp_vals}, tw))
-        for (q, im, model, spec, tags) in getattr(c, "res", []):
+        for qi, (q, im, model, spec, tags) in enumerate(getattr(c, "res", [])):
             n = q[3]
             stats["queries"] += 1
             # clauses that the theorem for the current flags (read_matches_spec_current) rules out
@@ -660,11 +661,28 @@ def judge(chk, cases, stats, exe=None):
                 if not e_spec:
                     kind = "count" if im["count"] != spec["count"] or im["err"] else "value"
                     key = "getdata/covered-region/%s/%s" % (sig[4], kind)
+                    extra = ""
+                    # is it the call, or what earlier calls on this handle left behind?  Ask a fresh handle.
+                    if exe is not None and os.path.isdir(getattr(c, "dir", "")):
+                        rc, out = run_stream([exe], "O %s\nG %s %d %d %d\nC\n" % (c.dir, q[0], q[1], q[2], q[3]), env=HENV)
+                        ls = [l for l in out.split("\n") if l.startswith("G ")]
+                        alone = parse_impl(ls[0]) if ls else None
+                        if alone is not None and same(alone, spec, n, False):
+                            # right on its own: the MPLEX start-value cache carried a value in.  The one listed way
+                            # is a value formed before sample zero (index padding equal to count_val); anything
+                            # else stays an unlisted key
+                            prior = [r[0] for r in c.res[:qi] if "mplexneg" in r[4]]
+                            key = K_CACHENEG if prior else "getdata/history-dependent/%s/%s" % (sig[4], kind)
+                            extra = " (the same call on a fresh handle returns the specified window; earlier calls on this handle: %s)" % (
+                                ["gd_getdata(%s, %d, %d)" % (p[0], p[2], p[3]) for p in (prior or [r[0] for r in c.res[:qi]])][-3:])
+                            stats["bykey"][key] = stats["bykey"].get(key, 0) + 1
                     if key not in seen_keys:
                         seen_keys[key] = 1
-                        chk.violation(key, "gd_getdata(%s, first_sample=%d, n=%d, %s) returns err=%d count=%d %s; the Standards give count=%d %s\n%s" % (
-                            q[0], q[2], q[3], TYPES[q[1]], im["err"], im["count"], im["vals"][:8], spec["count"], spec["vals"][:8], c.format_text()),
-                            replay_of(c, q, im, model, spec, tags))
+                        rp = replay_of(c, q, im, model, spec, tags)
+                        rp["earlier_calls_on_the_handle"] = [r[0] for r in c.res[:qi]]
+                        chk.violation(key, "gd_getdata(%s, first_sample=%d, n=%d, %s) returns err=%d count=%d %s; the Standards give count=%d %s%s\n%s" % (
+                            q[0], q[2], q[3], TYPES[q[1]], im["err"], im["count"], im["vals"][:8], spec["count"], spec["vals"][:8], extra, c.format_text()),
+                            rp)
                 continue
             stats["uncovered"] += 1
             if e_spec:
@@ -755,6 +773,13 @@ def witness_cases(rng):
             "def p phase i 6", "def x mplex a p 2 0"], [("x", 9, 0, 1)])
     c.files["i"] = b"".join(struct.pack("<i", v) for v in i20)
     W.append(c)
+    # MPLEX start-value cache seeded by a window that began before sample zero (two calls, in this order)
+    i8b = [1] * 8
+    c = mk(900010, "i RAW INT32 1\nx MPLEX INDEX i 0 0\np PHASE x -2\n", {},
+           ["raw 0 4 1 0 8 " + " ".join("%x" % v for v in i8b), "def i raw 0", "def x mplex INDEX i 0 0", "def p phase x -2"],
+           [("p", 9, 0, 4), ("x", 9, 2, 3)])
+    c.files["i"] = b"".join(struct.pack("<i", v) for v in i8b)
+    W.append(c)
     return W
 
 
@@ -764,6 +789,7 @@ WITNESS_KEYS = {900001: "getdata/multirate-unaligned-start",
                 900005: "getdata/raw-bof-pad-native-type", 900006: "getdata/mplex-multirate",
                 900008: "getdata/zero-length-buffer-internal-error",
                 900009: "getdata/mplex-lookback-reseek-range-error"}
+# 900010 (K_CACHENEG) is a two-call witness: it is confirmed by the judge itself (fresh-handle comparison)
 
 
 def main():
